@@ -361,6 +361,25 @@ fn run_known(args: &Args) -> Report {
         r.starts_with("a://127.0.0.1/ host=Some(Ipv4(127.0.0.1)) reparse=a://127.0.0.1/ host=Some(Domain(\"127.0.0.1\")) in_class=true prop_c02=true"),
         r,
     ));
+    // ===== F-C10-1 at URL level (task c09long) - begin =====
+    // Url::parse accepts a host label of 1000 ideographs (U+4E00 + 20*i); the host of the result is xn-- + 2958 bytes,
+    // inside Known_C10_long, which the idna crate rejects: the serialization does not parse (C02 violated on a plain
+    // parse result; coq: C09_long_model, C09_inst2_C02_refuted)
+    let r = verif_harness::guarded(|| {
+        let host: String = (0..1000u32).map(|i| char::from_u32(0x4E00 + 20 * i).unwrap()).collect();
+        match Url::parse(&format!("http://{}/", host)) {
+            Ok(u) => format!(
+                "parse ok len={} host_len={} reparse={:?} prop_c02={}",
+                u.as_str().len(),
+                u.host_str().map(|h| h.len()).unwrap_or(0),
+                Url::parse(u.as_str()).map(|v| v.as_str().len()),
+                prop_c02(&u).is_some()
+            ),
+            Err(e) => format!("parse Err({:?})", e),
+        }
+    });
+    rep.known.push(("F-C10-1".into(), r == "parse ok len=2970 host_len=2962 reparse=Err(IdnaError) prop_c02=true", r));
+    // ===== F-C10-1 at URL level (task c09long) - end =====
     rep
 }
 
